@@ -176,3 +176,123 @@ func tooMuchSites() []site {
 	})
 	return sites
 }
+
+// lists functions of rockredis where a commit of a write batch is followed (lexically, outside return
+// statements) by more code that can return an error or write again
+func commitThenWriteSites() []string {
+	var out []string
+	fset := token.NewFileSet()
+	files, _ := filepath.Glob(filepath.Join(repoDir(), "rockredis", "*.go"))
+	sort.Strings(files)
+	for _, fn := range files {
+		if strings.HasSuffix(fn, "_test.go") || strings.Contains(fn, "verif") {
+			continue
+		}
+		f, _ := parser.ParseFile(fset, fn, nil, 0)
+		for _, d := range f.Decls {
+			fd, ok := d.(*ast.FuncDecl)
+			if !ok || fd.Body == nil {
+				continue
+			}
+			var commits []token.Pos
+			var later []string
+			ast.Inspect(fd.Body, func(n ast.Node) bool {
+				c, ok := n.(*ast.CallExpr)
+				if !ok {
+					return true
+				}
+				name := ""
+				if sel, ok := c.Fun.(*ast.SelectorExpr); ok {
+					name = sel.Sel.Name
+				}
+				switch name {
+				case "CommitBatchWrite", "MaybeCommitBatch", "Write", "Commit":
+					if name == "Write" || name == "Commit" {
+						// only engine writes: receiver named rockEng / wb
+						if sel, ok := c.Fun.(*ast.SelectorExpr); ok {
+							r := ""
+							if s2, ok := sel.X.(*ast.SelectorExpr); ok {
+								r = s2.Sel.Name
+							} else if id, ok := sel.X.(*ast.Ident); ok {
+								r = id.Name
+							}
+							if r != "rockEng" && r != "wb" {
+								return true
+							}
+						}
+					}
+					commits = append(commits, c.Pos())
+				}
+				return true
+			})
+			if len(commits) == 0 {
+				continue
+			}
+			var retBlocks [][2]token.Pos // blocks whose last statement is a return
+			ast.Inspect(fd.Body, func(n ast.Node) bool {
+				if b, ok := n.(*ast.BlockStmt); ok && b != fd.Body && len(b.List) > 0 {
+					if _, ok := b.List[len(b.List)-1].(*ast.ReturnStmt); ok {
+						retBlocks = append(retBlocks, [2]token.Pos{b.Pos(), b.End()})
+					}
+				}
+				return true
+			})
+			// a commit inside a returning branch does not precede the code after that branch
+			after := func(p token.Pos) bool {
+				for _, c := range commits {
+					if c >= p {
+						continue
+					}
+					left := false
+					for _, b := range retBlocks {
+						if c >= b[0] && c < b[1] && p >= b[1] {
+							left = true
+						}
+					}
+					if !left {
+						return true
+					}
+				}
+				return false
+			}
+			first := token.Pos(0)
+			_ = first
+			ast.Inspect(fd.Body, func(n ast.Node) bool {
+				switch x := n.(type) {
+				case *ast.CallExpr:
+					if after(x.Pos()) {
+						name := ""
+						if sel, ok := x.Fun.(*ast.SelectorExpr); ok {
+							name = sel.Sel.Name
+						}
+						switch name {
+						case "Put", "Delete", "Merge", "DeleteRange", "IncrTableKeyCount":
+							later = append(later, fmt.Sprintf("%s@%d", name, fset.Position(x.Pos()).Line))
+						}
+						for _, a := range x.Args { // a helper that is handed the batch
+							if id, ok := a.(*ast.Ident); ok && id.Name == "wb" {
+								later = append(later, fmt.Sprintf("call(wb)@%d", fset.Position(x.Pos()).Line))
+							}
+							if s, ok := a.(*ast.SelectorExpr); ok && s.Sel.Name == "wb" {
+								later = append(later, fmt.Sprintf("call(db.wb)@%d", fset.Position(x.Pos()).Line))
+							}
+						}
+					}
+				case *ast.ReturnStmt:
+					if after(x.Pos()) && len(x.Results) > 0 {
+						last := x.Results[len(x.Results)-1]
+						if id, ok := last.(*ast.Ident); ok && (strings.HasPrefix(id.Name, "err") && id.Name != "err" || strings.HasPrefix(id.Name, "Err")) {
+							later = append(later, fmt.Sprintf("return %s@%d", id.Name, fset.Position(x.Pos()).Line))
+						}
+					}
+				}
+				return true
+			})
+			if len(later) > 0 {
+				out = append(out, fd.Name.Name)
+			}
+		}
+	}
+	sort.Strings(out)
+	return out
+}
